@@ -120,6 +120,26 @@ Theorem C13_dump_refuted_today :
   exists st', ea_dump DumpCurrent w2_world w2_rt 8 23 (sentinel 16) w2_state = Panic st' /\\
               hd (0, 0, 0, 0) (log st') = (1, 0, 16, 0) /\\ last_cover w2_hist 16 = Some 2.
 Proof. exact C13_dump_refuted. Qed.
+(* EaRead24_wrap, the third read path: fails loudly before touching any memory when one of its three
+   addresses is unattached; otherwise it is exactly three single EaReads (low, middle, high), and conversely *)
+Theorem C13_read24_unattached_loud : forall W rt a st,
+  seg_at rt (r24_addr a 0) = None \\/ seg_at rt (r24_addr a 1) = None \\/ seg_at rt (r24_addr a 2) = None ->
+  ea_read24_wrap W rt a st = Panic st.
+Proof. exact read24_unattached_loud. Qed.
+Theorem C13_read24_three_reads : forall W rt a st ll mm hh s0 s1 s2,
+  ea_read W rt (r24_addr a 0) st = Ok ll s0 ->
+  ea_read W rt (r24_addr a 1) s0 = Ok mm s1 ->
+  ea_read W rt (r24_addr a 2) s1 = Ok hh s2 ->
+  ea_read24_wrap W rt a st = Ok (Z.lor (Z.lor (Z.shiftl hh 16) (Z.shiftl mm 8)) ll) s2.
+Proof. exact read24_three_reads. Qed.
+Theorem C13_read24_ok_inv : forall W rt a st v s2,
+  ea_read24_wrap W rt a st = Ok v s2 ->
+  exists ll mm hh s0 s1,
+    ea_read W rt (r24_addr a 0) st = Ok ll s0 /\\
+    ea_read W rt (r24_addr a 1) s0 = Ok mm s1 /\\
+    ea_read W rt (r24_addr a 2) s1 = Ok hh s2 /\\
+    v = Z.lor (Z.lor (Z.shiftl hh 16) (Z.shiftl mm 8)) ll.
+Proof. exact read24_ok_inv. Qed.
 Print Assumptions C13_attach_loop.
 Print Assumptions C13_attach_misaligned.
 Print Assumptions C13_attach_aligned_succeeds.
@@ -137,6 +157,9 @@ Print Assumptions C13_dump_bytewise.
 Print Assumptions C13_dump.
 Print Assumptions C13_dump_log.
 Print Assumptions C13_dump_refuted_today.
+Print Assumptions C13_read24_unattached_loud.
+Print Assumptions C13_read24_three_reads.
+Print Assumptions C13_read24_ok_inv.
 """
 
 THEOREMS = [
@@ -157,6 +180,9 @@ THEOREMS = [
     ("C13_dump", "repaired EaDump after any history: returns end-start+1, data[i] = read(start+i) if attached, untouched otherwise"),
     ("C13_dump_log", "EaDump reads exactly the attached addresses, ascending, each once"),
     ("C13_dump_refuted_today", "witness: today's loop, EaDump(8,23) over two 16-byte RAMs panics in the first RAM at address 16"),
+    ("C13_read24_unattached_loud", "EaRead24_wrap fails loudly, before any memory is touched, when one of its three addresses is unattached"),
+    ("C13_read24_three_reads", "EaRead24_wrap = three single EaReads (low, middle, high; offset wraps inside the bank), little-endian"),
+    ("C13_read24_ok_inv", "a successful EaRead24_wrap decomposes into three successful single EaReads"),
 ]
 
 DATA_HDR = """(* generated by checks/bus.py from the observations of harness/bustool.go on the tree under test *)
@@ -197,6 +223,8 @@ def gal_op(o):
         return "OpAttach %d %d %d %d" % (o.get("m", 0), o.get("s", 0), o.get("e", 0), o["obs"])
     if k == "read":
         return "OpRead %d (%d)" % (o.get("a", 0), o["obs"])
+    if k == "read24":
+        return "OpRead24 %d (%d)" % (o.get("a", 0), o["obs"])
     if k == "write":
         return "OpWrite %d %d (%d)" % (o.get("a", 0), o.get("v", 0), o["obs"])
     return "OpDump %d %d %d %d (%d) %d" % (o.get("s", 0), o.get("e", 0), o.get("sent", 0), o.get("len", 0),
